@@ -430,3 +430,41 @@ func authPart(armoured []byte) ([]byte, bool) {
 	_, a, ok := parseDataLenient(armoured)
 	return a, ok
 }
+
+// parseAKELenient parses a DH-Commit or DH-Key message ignoring bytes after the
+// last field (a tolerant receiver may accept those; nothing in these messages is
+// authenticated). Other AKE messages have a fixed-length tail and are strict.
+func parseAKELenient(armoured []byte) (interface{}, bool) {
+	if !bytes.HasPrefix(armoured, []byte("?OTR:")) || len(armoured) < 7 {
+		return nil, false
+	}
+	body := armoured[5 : len(armoured)-1]
+	raw := make([]byte, base64.StdEncoding.DecodedLen(len(body)))
+	n, err := base64.StdEncoding.Decode(raw, body)
+	if err != nil {
+		return nil, false
+	}
+	raw = raw[:n]
+	h, rd, err := refotr.ParseHeader(raw)
+	if err != nil {
+		return nil, false
+	}
+	switch h.Type {
+	case refotr.TypeDHCommit:
+		m := &refotr.DHCommit{Header: h}
+		m.EncGx = rd.Data()
+		m.HashGx = rd.Data()
+		if rd.Err != nil {
+			return nil, false
+		}
+		return m, true
+	case refotr.TypeDHKey:
+		m := &refotr.DHKey{Header: h}
+		m.Gy = rd.MPILoose()
+		if rd.Err != nil {
+			return nil, false
+		}
+		return m, true
+	}
+	return nil, false
+}
